@@ -50,6 +50,8 @@ pub struct G<'a> {
     depth: usize,
     /// disable skeleton solving entirely (used by the audit / conformance partner)
     pub no_solve: bool,
+    /// remaining quantifier-expansion steps; exhausting it aborts the state (reported as cap_hit)
+    pub budget: u64,
 }
 
 pub fn sort_ok(s: Sort, v: &Val) -> bool {
@@ -90,6 +92,7 @@ impl<'a> G<'a> {
             maxabs: 0,
             depth: 0,
             no_solve: false,
+            budget: 30_000_000,
         }
     }
     pub fn bind(&mut self, name: &str, sort: Sort, v: Val) {
@@ -232,6 +235,10 @@ impl<'a> G<'a> {
     }
 
     fn expand(&mut self, ex: bool, vars: &[fol::Variable], body: &F) -> P {
+        if self.budget == 0 {
+            panic!("GROUND_BUDGET exhausted");
+        }
+        self.budget -= 1;
         if vars.is_empty() {
             return self.ground(body);
         }
